@@ -1,11 +1,133 @@
 import NavisModel.Drv.Proto
-import NavisModel.Model.Forest
-/-! Extension commands for C01 (line protocol prefix `c01x.`). -/
+import NavisModel.Drv.Forest
+import NavisModel.Model.OpsX
+/-! Extension commands for C01 (line protocol prefix `c01x.`): the soma bookkeeping model, the existence
+checker `somaOKB`, `resample_skeleton` with failed segments (`resampleSkipOn`), construction from edges. -/
 namespace Navis.Drv.C01Ext
+open Navis.Forest Navis.Proto Navis.Drv.Forest
 
-def run (cmd _rest : String) : Option String :=
+def parts (s : String) : List String := (s.splitOn "|").map trim
+
+def parseSoma (s : String) : Option Soma :=
+  if s == "D" then some .detect
+  else if s == "N" then some .none
+  else match s.splitOn ":" with
+    | ["O", i] => i.toInt?.map Soma.one
+    | ["M", l] => (intList? l).map Soma.many
+    | _ => none
+
+def showReport : Option (List Int) → String
+  | none => "N"
+  | some l => showInts (sortedInts l)
+
+def parseAct (s : String) : Option Resample.SegAct :=
+  if s == "c" then some .collapse
+  else if s == "k" then some .keep
+  else if s.startsWith "r" then ((s.drop 1).toString.toNat?).map fun k => Resample.SegAct.fresh (k + 2)
+  else none
+
+/-- `seg=act;seg=act;…` in the implementation's segment order -/
+def parseSegActs (s : String) : Option (List (List Int × Resample.SegAct)) :=
+  let s := trim s
+  if s.isEmpty then some [] else
+  (s.splitOn ";").mapM fun e =>
+    match e.splitOn "=" with
+    | [seg, a] => do pure ((← intList? seg), (← parseAct a))
+    | _ => none
+
+def parseEdges (s : String) : Option (List (Int × Int)) :=
+  let s := trim s
+  if s.isEmpty then some [] else
+  (s.splitOn ";").mapM fun e =>
+    match e.splitOn "," with
+    | [a, b] => do pure ((← (trim a).toInt?), (← (trim b).toInt?))
+    | _ => none
+
+/-- How the operation the harness calls `name` treats the stored soma: the classification of the corresponding
+constructor of the operation language (`OpAll.somaAct` / `OpX.somaAct`). -/
+def actOfName (name : String) : Option SomaAct :=
+  match name with
+  | "subset" | "subset_opts" => some (OpAll.subset []).somaAct
+  | "cutd" => some (OpAll.cutDistal 0).somaAct
+  | "cutp" => some (OpAll.cutProximal 0).somaAct
+  | "cutmany" | "split_frag" => some (OpAll.cutFragment [] 0).somaAct
+  | "prune_twigs" => some (OpAll.pruneTwigs 0 0 none).somaAct
+  | "prune_depth" => some (OpAll.pruneAtDepth 0 0).somaAct
+  | "longest" | "cbf" => some (OpAll.longestNeurite 0 0 false).somaAct
+  | "fragments" => some (OpAll.keepFragment 0 0).somaAct
+  | "drop_fluff" => some (OpAll.dropFluff none none).somaAct
+  | "heal_drop" => some (OpAll.healDrop {}).somaAct
+  | "heal" => some (OpAll.heal {}).somaAct
+  | "resample" => some (OpX.resampleSkip []).somaAct
+  | "reroot" | "rerootmany" => some (OpAll.reroot 0).somaAct
+  | "remove" => some (OpAll.removeNodes []).somaAct
+  | "ds" => some (OpAll.downsample none []).somaAct
+  | "classify" => some OpAll.reclassify.somaAct
+  | "prune_strahler" => some (OpAll.pruneByStrahler (.int 0)).somaAct
+  | "rewire" => some (OpAll.rewire []).somaAct
+  | "insert" | "raa" => some (OpAll.insertNodes [] []).somaAct
+  | "setnodes" | "merge_dups" => some (OpX.setNodes []).somaAct
+  | "mul" | "div" | "add" | "sub" | "copy" | "pickle" | "smooth" | "despike" | "guess_radius" | "reinit" => some OpX.touch.somaAct
+  | _ => none
+
+def run (cmd rest : String) : Option String :=
   match cmd with
   | "ping" => some "pong-c01x"
+  | "somaok" => do
+    -- "ids | table": every reported soma id is a node of the table
+    let (a, tb) ← split2 rest
+    let t ← parseTable tb
+    let l ← intList? a
+    pure (b2s (somaOKB t l))
+  | "soma" => do
+    -- "operation name | stored soma | thick(pre) | thick(post) | pre-table | post-table" → what the model's getter reports
+    match parts rest with
+    | [act, spec, th0, th1, tb0, tb1] => do
+      let t0 ← parseTable tb0
+      let t1 ← parseTable tb1
+      let sm ← parseSoma spec
+      let k0 ← intList? th0
+      let k1 ← intList? th1
+      let s : St := { nodes := t0, soma := sm, thick := k0 }
+      match actOfName act with
+      | some .pin =>
+        let s' : St := { nodes := t1, soma := stepSoma s t1 (fun _ => 0) .pin, thick := k1 }
+        pure (match report s' with | none => "N" | some l => s!"K:{l.length}")
+      | some a =>
+        let s' : St := { nodes := t1, soma := stepSoma s t1 (fun _ => 0) a, thick := k1 }
+        pure (showReport (report s') ++ (if somaOKStoredB t1 s'.soma then "" else " !stored"))
+      | none => pure "ERR:unknown-op"
+    | _ => none
+  | "resample" => do
+    -- "seg=act;… | pre-table": the loop of resample_skeleton over the implementation's segment order
+    let (a, tb) ← split2 rest
+    let t ← parseTable tb
+    let sa ← parseSegActs a
+    let segs := sa.map (·.1)
+    if canonSegs segs != canonSegs (smallSegments t) then pure "ERR:segments-differ-from-smallSegments"
+    else pure (showTopo (Resample.resampleSkipOn t segs (Resample.actTable sa)))
+  | "applyx" => do
+    -- "touch | table"  /  "setnodes | running table | assigned table": the second-layer constructors without own command
+    match parts rest with
+    | ["touch", tb] => do
+      let t ← parseTable tb
+      pure (showTopo (applyX (fun _ _ => 1) t .touch))
+    | ["setnodes", tb, tb'] => do
+      let t ← parseTable tb
+      let t' ← parseTable tb'
+      if !(OpX.setNodes t').okB then pure "ERR:assigned-table-not-well-formed"
+      else pure (showTopo (applyX (fun _ _ => 1) t (.setNodes t')))
+    | _ => none
+  | "fromedges" => do
+    -- "vertex ids in node order | a,b;c,d;… | roots"
+    match parts rest with
+    | [vs, es, rs] => do
+      let verts ← intList? vs
+      let E ← parseEdges es
+      let roots ← intList? rs
+      if !(OpX.fromEdges verts E roots).okB then pure "ERR:vertices"
+      else pure (showTopo (fromEdges verts E roots))
+    | _ => none
   | _ => none
 
 end Navis.Drv.C01Ext
